@@ -77,6 +77,26 @@ func c17LongName(r *core.Rand) string {
 	return b.String()
 }
 
+// c17Keyword undoes the keyword encoding of attribute names (GNU tar's
+// convention, the only one in use: a PAX keyword cannot hold '=', so '=' is
+// written %3D and '%' itself %25; anything else stands for itself).
+func c17Keyword(k string) string {
+	var b strings.Builder
+	for i := 0; i < len(k); i++ {
+		switch {
+		case strings.HasPrefix(k[i:], "%3D"):
+			b.WriteByte('=')
+			i += 2
+		case strings.HasPrefix(k[i:], "%25"):
+			b.WriteByte('%')
+			i += 2
+		default:
+			b.WriteByte(k[i])
+		}
+	}
+	return b.String()
+}
+
 func c17GenTree(R *core.Rand) *tree.Tree {
 	o := tree.DefaultOpt()
 	o.SpecLinks = true
@@ -92,6 +112,22 @@ func c17GenTree(R *core.Rand) *tree.Tree {
 		}
 		if t.Get(nw) == nil && len(nw) < 1500 {
 			c17Rename(t, e.Path, nw)
+		}
+	}
+	if R.P(1, 40) {
+		// attribute names that hold '=' or '%' (legal: any bytes without
+		// NUL); a PAX keyword cannot hold '=' and is written encoded
+		for i := range t.Entries {
+			if e := &t.Entries[i]; e.Type == tree.File && e.LinkTo == "" && t.GroupOf(e.Path) == "" {
+				if e.Xattrs == nil {
+					e.Xattrs = map[string][]byte{}
+				}
+				e.Xattrs[core.Pick(R, []string{"user.k=v", "user.=", "user.a=b=c%3D"})] = []byte("x")
+				if R.P(1, 2) {
+					e.Xattrs[core.Pick(R, []string{"user.p%q", "user.%25", "user.%3D"})] = []byte("y=z")
+				}
+				break
+			}
 		}
 	}
 	return t
@@ -297,7 +333,7 @@ func c17CompareMember(w *c17Want, m *c17Member) []string {
 	got := map[string][]byte{}
 	for k, v := range h.PAXRecords {
 		if strings.HasPrefix(k, xattrPAX) {
-			got[k[len(xattrPAX):]] = []byte(v)
+			got[c17Keyword(k[len(xattrPAX):])] = []byte(v)
 		}
 	}
 	if !tree.XattrEq(e.Xattrs, got) {
@@ -318,7 +354,7 @@ func init() {
 	core.Register(&core.Prop{
 		ID:    "C17",
 		Level: "exploration",
-		Rule: "random trees as in C01 (adversarial names incl. non-ASCII, empty files, sizes around the 32KiB chunk, ~1MiB files, hard-link groups of files, fifos and char devices, symlinks, fifos, char/block devices, setuid/setgid/sticky, three owners, ns/negative/far-future mtimes, user.* xattrs with empty and binary values on files and directories, trusted.* on symlinks) plus 0-2 entries renamed to 101-255 byte (partly non-ASCII) names x filter {none, include, exclude, include+exclude; 0-2 patterns each from the C10 grammar, single level fsutil.NewFilterFS} x source {fsutil.NewFS on disk, synthetic in-memory FS, fsutil.SubDirFS over NewFS, diagnostic: filter stacked on a keep-all map filter}. " +
+		Rule: "random trees as in C01 (adversarial names incl. non-ASCII, empty files, sizes around the 32KiB chunk, ~1MiB files, hard-link groups of files, fifos and char devices, symlinks, fifos, char/block devices, setuid/setgid/sticky, three owners, ns/negative/far-future mtimes, user.* xattrs with empty and binary values on files and directories (names holding '=' and '%' in 1 tree of 40, compared after undoing GNU tar's keyword encoding), trusted.* on symlinks) plus 0-2 entries renamed to 101-255 byte (partly non-ASCII) names x filter {none, include, exclude, include+exclude; 0-2 patterns each from the C10 grammar, single level fsutil.NewFilterFS} x source {fsutil.NewFS on disk, synthetic in-memory FS, fsutil.SubDirFS over NewFS, diagnostic: filter stacked on a keep-all map filter}. " +
 			"fsutil.WriteTar writes into a buffer. The view is predicted from an independent snapshot (or the model) + the naive reference filter and compared with a real second Walk; the archive is read with archive/tar (well-formed to EOF, two zero blocks, member sequence == view, per member: name with directory slash, type flag, link name, size, payload bytes, mode incl. special bits, uid/gid, |mtime - view| < 1s, device numbers, SCHILY.xattr.* records) and extracted as root with GNU tar (--xattrs --xattrs-include=* --same-owner --numeric-owner -p) into an empty directory whose snapshot is compared with the view (type, bytes, link groups, targets, device numbers, mode, owner, xattrs, mtime incl. directories to the second). " +
 			"non-trivial = the archive has at least one member and the case has a link group, a special file, a multi-chunk or empty file, a name > 100 bytes, or a filter that selects a proper non-empty subset; distinct by (tree, filter, source) fingerprint",
 		Assumptions: []string{
@@ -502,7 +538,17 @@ func c17Run(c *core.Ctx) *core.Result {
 	// the call under test
 	var buf bytes.Buffer
 	if err := fsutil.WriteTar(context.Background(), fs, &buf); err != nil {
-		r.ViolateD("tar-write-error", sample, "WriteTar failed on a fault-free view: %v", err)
+		sig := "tar-write-error"
+		if strings.Contains(err.Error(), "invalid PAX record") {
+			for _, w := range want {
+				for k := range w.E.Xattrs {
+					if strings.Contains(k, "=") {
+						sig = "tar-xattr-name-with-equals"
+					}
+				}
+			}
+		}
+		r.ViolateD(sig, sample, "WriteTar failed on a fault-free view: %v", err)
 		return r
 	}
 	r.Count("archives", 1)
@@ -550,6 +596,11 @@ func c17Run(c *core.Ctx) *core.Result {
 		}
 		if len(e.Xattrs) > 0 {
 			feat["xattrs"] = true
+			for k := range e.Xattrs {
+				if strings.ContainsAny(k, "=%") {
+					feat["xattr_names_with_equals_or_percent"] = true
+				}
+			}
 			for _, v := range e.Xattrs {
 				if len(v) == 0 {
 					feat["xattrs_empty_value"] = true
